@@ -16,7 +16,7 @@ CLAIMED = {
     'C01': ('exploration',
             'deterministic simulation, in situ: residual oracle (existential in the ridge) on every root the simulated optimizer installs under gradient faults',
             'Restricted reach: the property quantifies over all PSD matrices, which simulation cannot do. What is decided is that every root accepted by the gate during seeded, faulted histories (Newton/eigh/LOBPCG-deflated Newton, exponents 1-8, ridge 0..1e-1 relative/absolute, padded sharded stacks, x64 on/off, 1x1..10x10 statistics incl. singular/rank-deficient/overflow-scaled ones) is finite, symmetric, zero on padding, satisfies ||X^p(S+dI)-I||_max <= reported error + 20 n p kappa u for some admissible ridge d, and that the reported eigenvalue estimate does not exceed lambda_max.',
-            'Only matrices reachable from simulated gradient histories; direct float64 calls are not decided, LOBPCG deflation only for k in {1,2} on 12..16-dimensional statistics; vacuous evaluations (singular, kappa>1e8, slack>0.05) are counted separately in the evidence.',
+            'Only matrices reachable from simulated gradient histories; direct float64 calls are not decided, LOBPCG deflation only for k in {1,2} on 12..16-dimensional statistics; a scale class (6..12-dimensional statistics at gradient scales 1e-9..1e8) and a late-training class (beta2 = 0.5, 20-29 ticks, low-rank histories: the initial epsilon*I has decayed and statistics are genuinely rank deficient) are part of the swarm; vacuous evaluations (singular, kappa>1e8, slack>0.05) are counted separately in the evidence.',
             'DESIGN.md 5 C01'),
     'C02': ('exploration',
             'deterministic simulation: one-step refinement of the real update against an independent float64 reference model over seeded configs, trees and (faulted) histories',
@@ -26,21 +26,21 @@ CLAIMED = {
     'C05': ('exploration',
             'deterministic simulation: closed-form grafting norms and model-computed directions per tick, across every preconditioner representation',
             'With momentum and weight decay off, per tick and leaf: from the start step on the update has the closed-form graft step norm and the direction of the preconditioned gradient computed by the reference from the roots in the state (dense, int16-dequantized, low-rank packed, FD-packed, sharded, Tearfree blocks, Tearfree sketch); before the start step and for excluded leaves it is the graft step itself. Graft accumulators are also tracked free-running from the gradient history.',
-            'Adafactor grafting is not exercised; direction checks are vacuous when the preconditioned gradient is numerically zero.',
+            'Adafactor grafting is not exercised; direction checks are vacuous when the preconditioned gradient is numerically zero (an exactly zero preconditioned gradient must give a zero update: reached with row-sparse dead-direction histories).',
             'DESIGN.md 4 C05'),
     'C04': ('exploration',
             'deterministic simulation: virtual clock (count leaf) ticked, jumped and rolled back; explicit schedule automaton vs bitwise state diffs per tick',
-            'Seeded search over (s, p or lr-scheduled p_t, S) schedules and op histories (STEP, CLOCK_JUMP up to 2^20, stale-checkpoint CRASH_RESTORE, REJIT) for Distributed Shampoo (jit, simulated replicas, quantized, sharded) and Tearfree Shampoo/Sketchy. Per tick: every counter +1, statistics/preconditioner/diagnostic leaves byte-identical off schedule, refreshed statistics equal the one-step float64 reference, accepted roots satisfy the root oracle against the statistics stored at that tick, and the update comes from the branch (graft momentum vs preconditioned) the clock selects.',
+            'Seeded search over (s, p or lr-scheduled p_t, S) schedules and op histories (STEP, CLOCK_JUMP up to 2^20, stale-checkpoint CRASH_RESTORE, REJIT) for Distributed Shampoo (jit, simulated replicas, quantized, sharded) and Tearfree Shampoo/Sketchy. Per tick: every counter +1, statistics/preconditioner/diagnostic leaves byte-identical off schedule (Sketchy variants ekfac_svd / add_ggt / linear_approx_tail included, bitwise oracles only), refreshed statistics equal the one-step float64 reference, accepted roots satisfy the root oracle against the statistics stored at that tick, and the update comes from the branch (graft momentum vs preconditioned) the clock selects.',
             'The automaton is written from the docstrings; lr-scheduled intervals are evaluated in float64 with dont-care ticks at rounding boundaries; bounded sizes and horizons.',
             'DESIGN.md 4 C04'),
     'C07': ('exploration',
             'deterministic simulation: configuration swarm over every constructor argument x trees x short histories with restore; outcome taxonomy (success / explicit rejection / internal error) and layout oracles incl. scan carry, checkpoint target and sharded declarations',
-            'Seeded search over all constructor options of distributed_shampoo (compression, frequent directions, gradient averaging, reuse/reset, LOBPCG, INPUT/OUTPUT, block size 1, metrics on/off, quantization, simulated replicas, sharding, x64 on/off), sm3 and tearfree on trees of rank 0-4 with unit dims and the empty tree, with Python-float, float32 and optax-schedule learning rates. Every run must either succeed or raise an explicit explanatory rejection; on success the update tree matches the parameters in structure/shape/dtype, the state signature is a fixed point of update (also demonstrated as a lax.scan carry and a from_bytes target), and in sharded mode init, declared shapes/dtypes and partition specs describe one tree; no state leaf is weakly typed and dtypes do not drift under x64.',
-            'Explicit rejection = raise statement or assert-with-message in a repository frame; LOBPCG only on sizes its JAX implementation accepts; T<=4 ticks.',
+            'Seeded search over all constructor options of distributed_shampoo (compression, frequent directions, gradient averaging, reuse/reset, LOBPCG, INPUT/OUTPUT, block size 1, metrics on/off, quantization, simulated replicas, sharding, x64 on/off), sm3 and tearfree (Sketchy variants ekfac_svd / add_ggt / linear_approx_tail included) on trees of rank 0-4 with unit dims and the empty tree, with Python-float, float32 and optax-schedule learning rates. Every run must either succeed or raise an explicit explanatory rejection; on success the update tree matches the parameters in structure/shape/dtype, the state signature is a fixed point of update (also demonstrated as a lax.scan carry and a from_bytes target), and in sharded mode init, declared shapes/dtypes and partition specs describe one tree; no state leaf is weakly typed and dtypes do not drift under x64.',
+            'Explicit rejection = raise statement, or assert whose message contains words (a string literal; an assert that only dumps a value is an internal error), in a repository frame; LOBPCG only on sizes its JAX implementation accepts; T<=4 ticks.',
             'DESIGN.md 4 C07'),
     'C08': ('exploration',
             'deterministic simulation: four optimizer instances in lock-step (blocked tensor / its blocks as leaves / one block alone / plus companions of mixed rank at a random tree position), optionally on simulated replicas, on histories with per-block scales 1e-6..1e6, one-hot and zero blocks',
-            'Twin runs for Distributed Shampoo (1 or 2 blocked axes, ragged last block) and Tearfree Shampoo: per tick every block of the blocked tensor gets the update (graft none) or the direction (grafted) that it gets as a separate leaf, zero-gradient blocks get zero, the tensor\'s update is unchanged by companion leaves of arbitrary shape, rank, scale and position (also with 2-3 simulated replicas, where statistics of different leaves share a replica\'s work list), and parameters smaller than one block behave like their own block.',
+            'Twin runs for Distributed Shampoo (1 or 2 blocked axes, ragged last block) and Tearfree Shampoo: per tick every block of the blocked tensor gets the update (graft none) or the direction (grafted) that it gets as a separate leaf, zero-gradient blocks get zero, the tensor\'s update is unchanged by companion leaves of arbitrary shape, rank, scale and position (also with 2-3 simulated replicas, where statistics of different leaves share a replica\'s work list), and parameters smaller than one block behave like their own block. Blocked tensors may carry an unblocked axis before/between/after the blocked ones; overall gradient scales 1..1e-6; beta2 = 0.5 histories of 18-26 ticks leave the initialisation-dominated regime.',
             'Momentum and weight decay off; tolerances 2e-3 (float32 DS) / 1e-6 (float64 Tearfree) relative.',
             'DESIGN.md 4 C08'),
     'C09': ('exploration',
@@ -50,7 +50,7 @@ CLAIMED = {
             'DESIGN.md 4 C09, appendix C'),
     'C10': ('exploration',
             'deterministic simulation, in situ: compressed-mode runs; packed state decoded with the repo\'s own unpack and compared with dense application and with the exact float64 truncated root',
-            'Restricted reach (clause 1, pack/unpack as isolated functions, is not decided). In compression_rank = +-1..3 runs (jit, simulated replicas, sharded, padded statistics, the frequent-directions packed variant, gradient scales down to 1e-12 in float32): the update through the compressed application path equals the reference\'s dense application of c(I-VV\')+V diag(e) V\' (one-step refinement and grafting direction/norm oracles), and on refresh ticks the retained subspace, the retained root values and the mean of the non-retained root values equal those of the exact float64 eigendecomposition of the stored statistics for some admissible ridge.',
+            'Restricted reach (clause 1, pack/unpack as isolated functions, is not decided). In compression_rank = +-1..3 runs (jit, simulated replicas, sharded, padded statistics, the frequent-directions packed variant, gradient scales down to 1e-12 in float32): the update through the compressed application path equals the reference\'s dense application of c(I-VV\')+V diag(e) V\' (one-step refinement and grafting direction/norm oracles), on refresh ticks the retained directions are orthonormal inside the real (unpadded) dimensions (float64 roots), and the retained subspace, the retained root values and the mean of the non-retained root values equal those of the exact float64 eigendecomposition of the stored statistics for some admissible ridge.',
             'Root-value comparisons are vacuous where lambda+d is within 1000x of the float32 eigenvalue noise or the gap at the cut is below 1e-3 lambda_max.',
             'DESIGN.md 5 C10'),
     'C11': ('exploration',
@@ -70,7 +70,7 @@ CLAIMED = {
             'DESIGN.md 4 C13'),
     'C14': ('fault_enumeration',
             'deterministic simulation: crash at every step k of each sampled history, only serialized bytes survive, fresh optimizer object/compile (and fresh interpreter for a subset), bitwise twin comparison',
-            'For every sampled (optimizer family and mode, config, tree, history of T ticks) every crash point k in 0..T is executed: to_bytes at k, drop optimizer object, jit cache and live state, construct a fresh optimizer, from_bytes into its init template, continue to T; every later update and state leaf must be byte-identical to the uninterrupted twin. Families: DS full/quantized(replicas)/compressed/FD/sharded/eager, SM3 (x64 on/off), Tearfree Shampoo/Sketchy; Python-float and optax-schedule learning rates; restored leaves as device arrays, and as numpy arrays (completion only). Exhaustive over crash points per history; histories are sampled.',
+            'For every sampled (optimizer family and mode, config, tree, history of T ticks) every crash point k in 0..T is executed: to_bytes at k, drop optimizer object, jit cache and live state, construct a fresh optimizer, from_bytes into its init template, continue to T; every later update and state leaf must be byte-identical to the uninterrupted twin. Families: DS full/quantized(replicas)/compressed/FD/sharded/eager/eager-FD, SM3 (x64 on/off), Tearfree Shampoo/Sketchy; Python-float and optax-schedule learning rates; restored leaves as device arrays, and as numpy arrays exactly as flax returns them (completion, plus numeric equality of the linear accumulators of the state). Exhaustive over crash points per history; histories are sampled.',
             'Checkpoint = flax msgpack of the state pytree; parameters and the gradient stream are checkpointed by the stub trainer; restored leaves are placed on device before an eager update.',
             'DESIGN.md 4 C14'),
     'C15': ('exploration',
@@ -80,7 +80,7 @@ CLAIMED = {
             'DESIGN.md 4 C15, appendix B'),
     'C16': ('exploration',
             'deterministic simulation: stepwise init/update pairs vs closed forms, exact full-matrix AdaGrad and exact covariance; compiled scan/fori_loop runner as a twin',
-            'Seeded search over algorithm x dimension x sketch size x delta x lr x gradient sequence kind; OGD and diagonal AdaGrad iterates equal their closed forms to 1e-12, every sketched method keeps its last sketch row zero and its sketch within the FD bracket, alpha equals delta plus the accumulated escaped mass, S-AdaGrad equals exact full-matrix AdaGrad whenever the history rank is below the sketch size and delta>0, and the compiled runner\'s history at the observation indices equals the stepwise states.',
+            'Seeded search over algorithm x dimension x sketch size x delta x lr x gradient sequence kind; OGD and diagonal AdaGrad iterates equal their closed forms to 1e-12, every sketched method keeps its last sketch row zero and its sketch within the FD bracket, alpha equals delta plus the accumulated escaped mass, S-AdaGrad equals exact full-matrix AdaGrad whenever the history rank is below the sketch size and delta>0, and the compiled runner\'s history at the observation indices equals the stepwise states. Sequences include exact-zero rounds, duplicated rows, scale jumps, whole-sequence scales down to 1e-12 and single features 1e-12 below the others; delta down to 1e-24 and 0.',
             'x64 on; the lossless comparison is vacuous when cond(delta I + C) makes float64 meaningless (>4e9).',
             'DESIGN.md 4 C16'),
     'C17': ('exploration',
